@@ -30,6 +30,7 @@ def dataset_specs(tier: str, purpose: str) -> list[dict]:
     specs = [
         {'family': 'cf1d', 'ny': 3, 'nx': 4, 'ints': True},
         {'family': 'cf1d', 'ny': 3, 'nx': 3, 'bounds': 'var', 'lat_kind': 'desc', 'names': 'other', 'coords_as': 'var'},
+        {'family': 'cf1d', 'ny': 3, 'nx': 3, 'bounds': 'coord', 'lon_kind': 'nonuni'},
         {'family': 'cf2d', 'ny': 3, 'nx': 4, 'geometry': 'skew', 'ints': True},
         {'family': 'cf2d', 'ny': 3, 'nx': 3, 'geometry': 'rect', 'coords_as': 'var'},
         {'family': 'cf2d', 'ny': 3, 'nx': 3, 'geometry': 'rect', 'bounds': 'derived'},
@@ -42,7 +43,7 @@ def dataset_specs(tier: str, purpose: str) -> list[dict]:
     ]
     if not quick:
         specs += [
-            {'family': 'cf1d', 'ny': 4, 'nx': 4, 'bounds': 'coord', 'lon_kind': 'nonuni'},
+            {'family': 'cf1d', 'ny': 4, 'nx': 4, 'bounds': 'coord', 'lat_kind': 'descnonuni', 'declare_reversed': True},
             {'family': 'cf1d', 'ny': 2, 'nx': 5, 'bounds': 'gapped', 'ints': True},
             {'family': 'cf2d', 'ny': 4, 'nx': 4, 'geometry': 'rot', 'holes': 'interior'},
             {'family': 'cf2d', 'ny': 4, 'nx': 3, 'geometry': 'skew', 'bounds': 'derived', 'coords_as': 'var'},
